@@ -23,6 +23,12 @@ def python_evaluate(s: str) -> int:
         raise NotAnIntegerException(s, str(ex))
 
     if isinstance(val, int):
+        try:
+            str(val)
+        except ValueError as ex:
+            # The interpreter limits the number of digits of an integer that can be converted to a string.
+            # Such an integer cannot be displayed in any report.
+            raise NotAnIntegerException(s, str(ex))
         return val
     else:
         raise NotAnIntegerException(s)
